@@ -89,7 +89,17 @@ def gen_spec(seed, tier):
         roles[str(len(programs) - 1)] = "admin"
     cfg = {"mode": "line", "policy": gen.pick(rng, ["uniform", "uniform", "pct", "boundary"]),
            "mean_run": gen.pick(rng, [1, 2, 5, 20, 200]), "opcode": rng.random() < 0.5, "pct_depth": rng.randint(1, 3)}
-    return {"seed": seed, "pool": pool, "programs": programs, "roles": roles, "config": cfg, "faults": []}
+    # crash at an arbitrary instant: an interrupt inside a conversion / comparison / library call given the quantity
+    frng = rng_for(seed, "faults")
+    faults = []
+    if frng.random() < 0.25:
+        for _ in range(frng.randint(1, 3)):
+            ti = frng.randrange(ntasks)
+            faults.append({"kind": "interrupt", "task": ti, "op": frng.randrange(len(programs[ti])),
+                           "at": frng.randint(1, 40), "exc": "MemoryError" if frng.random() < 0.25 else "SimInterrupt"})
+        seen_ops = set()
+        faults = [f for f in faults if (f["task"], f["op"]) not in seen_ops and not seen_ops.add((f["task"], f["op"]))]
+    return {"seed": seed, "pool": pool, "programs": programs, "roles": roles, "config": cfg, "faults": faults}
 
 
 def gen_op(rng, pool):
@@ -376,6 +386,11 @@ def simulate(spec):
         except (SimInterrupt, BudgetExceeded):
             t.harness = 1
             raise
+        except MemoryError:
+            t.harness = 1
+            if t.fired is not None:
+                raise
+            return {"kind": "exc", "digest": "MemoryError"}
         except Exception as e:  # noqa
             t.harness = 1
             return {"kind": "exc", "digest": type(e).__name__}
@@ -394,13 +409,15 @@ def simulate(spec):
     else:
         dec = PrngDecider(rng_for(spec["seed"], "schedule"), cfg["policy"], cfg["mean_run"], max(10, nops * 40),
                           len(spec["programs"]), cfg.get("pct_depth", 2))
-    sim = Sim(spec["programs"], exec_op, dec, mode=cfg["mode"], opcode=cfg.get("opcode", False), faults=[],
-              on_boundary=on_boundary, roles={int(k): v for k, v in spec["roles"].items()})
+    sim = Sim(spec["programs"], exec_op, dec, mode=cfg["mode"], opcode=cfg.get("opcode", False),
+              faults=spec.get("faults") or [], on_boundary=on_boundary,
+              roles={int(k): v for k, v in spec["roles"].items()})
     sim.run()
     results = [t.results for t in sim.tasks]
     triples = sorted({(op["op"], W.dim[op["q"]], op.get("u") or op.get("slot") or op.get("call") or "")
                       for p, r in zip(spec["programs"], spec["roles"].values()) if r == "client" for op in p})
     return {"violations": viol, "results_sha": sha(results), "schedule": sim.schedule, "events": sim.events,
+            "faults_fired": sim.fault_fired,
             "switches": sim.switches, "overlap": sorted([[a, b, n] for (a, b), n in sim.overlap.items()]),
             "harness_errors": sim.harness_errors, "digest": sha([[list(x) for x in sim.log], results]),
             "triples": [list(x) for x in triples], "nops": nops,
@@ -422,6 +439,7 @@ def run_case(seed, tier, idx):
            "digest": hist["digest"], "nontrivial": hist["nops"] >= 5, "events": hist["events"],
            "switches": hist["switches"], "overlap": hist["overlap"], "triples": hist["triples"], "nops": hist["nops"],
            "libcalls": hist["libcalls"], "ntasks": ntasks, "admin": any(r == "admin" for r in spec["roles"].values()),
+           "faults_fired": hist["faults_fired"],
            "opcode": spec["config"]["opcode"],
            "sample": {"seed": seed, "pool": spec["pool"][:6], "program_head": [p[:6] for p in spec["programs"]],
                       "config": spec["config"], "tasks": len(spec["programs"])}}
@@ -469,5 +487,7 @@ def summarise(records):
         "histories_with_opcode_pre_emption": opc,
         "logical_time": {"pre_emption_point_events": tot["events"]},
         "context_switches": tot["switches"], "overlap_pairs_distinct": len(pairs),
-        "fault_kinds_fired": {"units_flip(admin ops interleaved)": adm},
+        "fault_kinds_fired": dict({"units_flip(admin ops interleaved)": adm},
+                                  **{"interrupt." + k: sum(1 for r in records for f in r.get("faults_fired", []) if f["exc"] == k)
+                                     for k in ("SimInterrupt", "MemoryError")}),
     }
